@@ -1766,3 +1766,54 @@ def r12_12(rep):
                 fn = "::".join(p.split("::")[-2:]) if not p.startswith("<") else re.sub(r"<(.*?) as (.*?)>::(\w+)", lambda mm: "%s for %s::%s" % (mm.group(2).split("::")[-1], mm.group(1).split("::")[-1], mm.group(3)), p)
                 rep.check(not panics, "unknown-abi-panics@%s" % fn, "the `ClangAbi::Unknown` arm of %s %s" % (fn, "panics" if panics else "does not panic"), b.loc(body))
     rep.check(n >= 2, "unknown-abi-arms", "%d arms handling ClangAbi::Unknown" % n)
+
+
+# ---------------------------------------------------------------------------------------------------------
+# R12.13  the signature of a function declared through a typedef is an alias: canonicalise before destructuring
+# ---------------------------------------------------------------------------------------------------------
+def _aborts(b, n):
+    for x in b.walk(n):
+        if x["k"] in ("Call", "MCall"):
+            c = str(x.get("callee") or x.get("resolved") or "")
+            if "core::panicking::" in c or "std::rt::panic" in c or "std::rt::begin_panic" in c or "panic_fmt" in c or "unreachable" in c:
+                return True
+    return False
+
+
+@RULES.rule("R12.13", "TypeKind::Function is taken out of a function's signature type only after looking through aliases", floor=4)
+def r12_13(rep):
+    """`typedef int fn_t(int); static fn_t f;` / `struct S { fn_t m; };` / `struct S { virtual fn_t m; };` are valid C / C++; the
+    signature item of such a function is `TypeKind::Alias(fn_t)`, not `TypeKind::Function`.  A `let TypeKind::Function(..) =
+    <sig>.kind() else { panic!() }` therefore has to read the kind of `<sig>.canonical_type(ctx)` (as `Function::codegen` does);
+    without it bindgen aborts on those headers instead of emitting bindings."""
+    from hir import pat_variants as _pv
+    prog = rep.prog
+    FNK = "ir::ty::TypeKind::Function"
+    n = 0
+    for p, b in sorted(prog.bodies.items()):
+        for st in b.nodes:
+            if st["k"] == "Let" and "els" in st:
+                pats, scr, fb = _pv(st["pat"]), st.get("init"), st["els"]
+            elif st["k"] == "Match":
+                accept = [v for a in st["arms"] for v in _pv(a["pat"]) if v != "_"]
+                wild = [a for a in st["arms"] if "_" in _pv(a["pat"]) or not _pv(a["pat"])]
+                if not wild:
+                    continue
+                pats, scr, fb = accept, st["scrut"], wild[-1]["body"]
+            else:
+                continue
+            if scr is None or [v for v in pats if v != "_"] != [FNK] or not _aborts(b, fb):
+                continue
+            src = b.canon(scr, 8)
+            if "Function::signature" not in src:
+                # follow one level of `let signature_item = ctx.resolve_item(function.signature())`
+                ids = [x for x in b.walk(scr) if x["k"] == "Local"]
+                src2 = " ".join(b.canon(b.local_init(x["id"]), 8) for x in ids if b.local_init(x["id"]) is not None)
+                if "Function::signature" not in src2:
+                    continue
+                src = src + " <- " + src2
+            n += 1
+            ok = "canonical_type" in src or "through_type_aliases" in src
+            rep.check(ok, "fn-signature-kind@" + short(b), "`%s`%s" % (src[:160], "" if ok else
+                      ": the kind of an alias is TypeKind::Alias, the fallback aborts (function declared through a typedef)"), b.loc(st))
+    rep.need(n >= 4, "destructurings of a function signature's TypeKind::Function with an aborting fallback")
